@@ -32,12 +32,12 @@ Print Assumptions C19_eof_empty.
 (* tie to the source: the model instance that is extracted and compared with the implementation
    uses the facts of the current tree; for byte streams the line end must be recognised by the
    buffer's type, for the loop the comparison must be `len(buffer) < n` *)
-Definition cfg_ok_C19 : Prop := cf_newline = NlByBufferType /\ cf_read_loop_cmp = CLt.
+Definition cfg_ok_C19 : Prop := (cf_newline = NlByBufferType /\ cf_read_loop_cmp = CLt) /\ cf_reader_shape_ok = true.
 Lemma C19_cfg_ok : cfg_ok_C19.
-Proof. split; reflexivity. Qed.
+Proof. repeat split; reflexivity. Qed.
 
 Theorem C19_bytes_newline : forall c, is_nl_for cf_newline true c = (c =? 10)%Z.
-Proof. intro c. rewrite (proj1 C19_cfg_ok). reflexivity. Qed.
+Proof. intro c. rewrite (proj1 (proj1 C19_cfg_ok)). reflexivity. Qed.
 Print Assumptions C19_bytes_newline.
 
 (* non-vacuity: a concrete stream with empty items, mixed reads *)
